@@ -320,11 +320,11 @@ def rel_gate(v):
         if bad:
             confirmed = True; notes.append(f'{bad} of {runs} fresh processes had threads that panicked or disagreed on their first concurrent parse')
         else:
-            return 'unconfirmable', {'native': natives, 'notes': [f'schedule-dependent: {runs} racing processes did not hit the interleaving; schedule found by the engine: {v.get("schedule")}']}
+            return 'unconfirmed', {'native': natives, 'notes': [f'schedule-dependent: {runs} racing processes did not hit the interleaving; schedule found by the engine: {v.get("schedule")}']}
     elif rel == 'ub':
         return 'unconfirmable', {'native': {}, 'notes': ['out-of-allocation access / failed debug assertion inside a scanner, found on the real MIR with an exact-size buffer allocation; standard-level UB that no native run reliably confirms (triage by reading the MIR location)']}
     elif rel == 'cell':
-        return 'unconfirmable', {'native': {}, 'notes': ['runtime-feature cell invariant: a statement over all CPUs and interleavings; this host has one CPU kind']}
+        return 'unconfirmed', {'native': {}, 'notes': ['runtime-feature cell invariant: a statement over all CPUs and interleavings; this host has one CPU kind']}
     elif rel == 'completable':
         entry = en(kind, v['api'])
         for prof in profs:
